@@ -107,6 +107,10 @@ func TestVerifC12_groupscalars(t *testing.T) {
 			f.CheckUn(r, op, red, true)
 		}
 		f.CheckPred(r, bf.Pred{Name: "IsZero", Do: func(x bf.Elem) bool { return e(x).IsZero() }, Ref: bf.RefIsZero}, red)
+		f.CheckBitFlips(r, bf.BitFlip{Coords: 1, Bits: uint(8 * c.size), P: N, Limit: N,
+			IsZero: func(x bf.Elem) bool { return e(x).IsZero() }, IsEqual: func(x, y bf.Elem) bool { return e(x).IsEqual(e(y)) }},
+			[]bf.Operand{{V: new(big.Int), Name: "0"}, {V: big.NewInt(1), Name: "1"}, {V: new(big.Int).Sub(N, big.NewInt(1)), Name: "p-1"}, {V: bf.Pseudo("group-pred", 0, N), Name: "pseudo0"}, {V: bf.Pseudo("group-pred", 1, N), Name: "pseudo1"}})
+		r.RequireCounter(c.name+".predicates.one-bit-neighbours", int64(4*(N.BitLen()-1)))
 		small := f.Prepare("k", bf.Thin(red.Ops, r.Pick(24, 60)))
 		f.CheckCmov(r, "CMov", func(x, y bf.Elem, b int) { e(x).CMov(b, e(y)) }, []int{0, 1}, small, small)
 		// CSelect(b, x, y): x if b = 1, y if b = 0
